@@ -4,7 +4,7 @@
 From Coq Require Import List NArith Bool Arith Lia.
 From RPFT Require Import Base.Sexp Base.PyStr Base.Result Gen.Tables Flow.Flow Flow.Closed Flow.NodeIdCheck
      Flow.NodeIdCheckFacts Flow.RowSem Comp.Compile Comp.CompileFacts Comp.CompileInv Comp.CompileStep
-     Comp.CompileClosed Comp.CompileExamples.
+     Comp.CompileClosed Comp.CompileDistinct Comp.CompileExamples.
 Import ListNotations.
 
 Definition ex_name : str := [102; 49]%N.     (* "f1" *)
@@ -72,4 +72,58 @@ Proof.
   - destruct compile_ex_dup_unvalidated as (f & Hf & Hc). exists ex_dup_uuid, f. split; [|exact Hc].
     unfold compile, compile_with in *. destruct (crun std_fresh ex_dup_uuid) as [s|x]; [|discriminate].
     rewrite <- Hf. apply cfinish_with_ext. intros us. unfold compile_flow_validation. rewrite E. reflexivity.
+Qed.
+
+(* ---------------------------------------------------------------- a supply of RFC-4122 strings
+   The hypotheses of compile_doc_closed are satisfiable: the first 256 identifiers of this supply are version-4
+   uuid strings (00000000-0000-4000-8000-0000000000xx), the others the pseudo-characters of std_fresh. *)
+Definition hexd (d : N) : N := (if d <? 10 then 48 + d else 87 + d)%N.
+Definition uuid_prefix : str :=
+  [48;48;48;48;48;48;48;48;45;48;48;48;48;45;52;48;48;48;45;56;48;48;48;45;48;48;48;48;48;48;48;48;48;48]%N.
+Definition uuid_fresh (k : nat) : id :=
+  if Nat.ltb k 256 then uuid_prefix ++ [hexd (N.of_nat k / 16); hexd (N.of_nat k mod 16)]%N else std_fresh k.
+
+Lemma uuid_fresh_small_inj :
+  forallb (fun a => forallb (fun b => implb (str_eqb (uuid_fresh a) (uuid_fresh b)) (Nat.eqb a b)) (seq 0 256)) (seq 0 256) = true.
+Proof. vm_compute. reflexivity. Qed.
+
+Lemma uuid_fresh_small_uuid4 : forallb (fun k => is_uuid4 (uuid_fresh k)) (seq 0 256) = true.
+Proof. vm_compute. reflexivity. Qed.
+
+Lemma uuid_fresh_inj a b : uuid_fresh a = uuid_fresh b -> a = b.
+Proof.
+  intros E. destruct (Nat.ltb a 256) eqn:Ea, (Nat.ltb b 256) eqn:Eb.
+  - apply Nat.ltb_lt in Ea, Eb. pose proof uuid_fresh_small_inj as H. rewrite forallb_forall in H.
+    specialize (H a ltac:(apply in_seq; lia)). rewrite forallb_forall in H. specialize (H b ltac:(apply in_seq; lia)).
+    rewrite E, PyStrFacts.str_eqb_refl in H. cbn in H. apply Nat.eqb_eq, H.
+  - unfold uuid_fresh in E. rewrite Ea, Eb in E. discriminate E.
+  - unfold uuid_fresh in E. rewrite Ea, Eb in E. discriminate E.
+  - unfold uuid_fresh in E. rewrite Ea, Eb in E. apply std_fresh_inj, E.
+Qed.
+
+Lemma uuid_fresh_uuid4 k : k < 256 -> is_uuid4 (uuid_fresh k) = true.
+Proof. intros H. pose proof uuid_fresh_small_uuid4 as F. rewrite forallb_forall in F. apply F, in_seq. lia. Qed.
+
+(* the two given `_nodeId`s of ex_given *)
+Definition ex_given_ids : list id := filter (fun u => match u with [] => false | _ => true end) (map cr_uuid ex_given).
+
+(* all hypotheses of compile_doc_closed hold of this supply, this sheet (a message row and a router row with given
+   `_nodeId`s, a third row) and its given identifiers, and the document checker accepts the compiled flow *)
+Example compile_doc_closed_example :
+  (forall a b, uuid_fresh a = uuid_fresh b -> a = b)
+  /\ (forall k, k < compile_draws uuid_fresh ex_given -> is_uuid4 (uuid_fresh k) = true)
+  /\ (forall k, ~ In (uuid_fresh k) ex_given_ids)
+  /\ (forall cr, In cr ex_given -> cr_uuid cr <> [] -> In (cr_uuid cr) ex_given_ids)
+  /\ length ex_given_ids = 2
+  /\ exists f, compile uuid_fresh ex_name ex_given = Ok f /\ length (f_nodes f) = 3 /\ closedb ex_given_ids [f] = true.
+Proof.
+  split; [exact uuid_fresh_inj|]. split; [|split; [|split; [|split]]].
+  - intros k Hk. apply uuid_fresh_uuid4. assert (E : compile_draws uuid_fresh ex_given <= 256) by (vm_compute; lia). lia.
+  - intros k Hin. assert (E : forallb (fun u => negb (Nat.eqb (length u) 1) && negb (starts_with [48%N] u)) ex_given_ids = true)
+      by (vm_compute; reflexivity).
+    rewrite forallb_forall in E. specialize (E _ Hin). unfold uuid_fresh in E. destruct (Nat.ltb k 256); vm_compute in E; discriminate.
+  - intros cr Hcr Hne. unfold ex_given_ids. apply filter_In. split; [apply in_map, Hcr|]. destruct (cr_uuid cr); [contradiction|reflexivity].
+  - vm_compute. reflexivity.
+  - let r := eval vm_compute in (compile uuid_fresh ex_name ex_given) in
+    match r with Ok ?f => exists f; split; [vm_compute; reflexivity|split; vm_compute; reflexivity] end.
 Qed.
